@@ -16,7 +16,7 @@ R-C01.3  block outputs of a branching block: the variables of every successor ro
          partitioned into "inside the branch sum" and "regular outputs" by complementary
          tests on the same flag the sort order uses (4-row truth table over copyable/droppable).
 R-C01.4  return variables are prepended consistently to the exit signature and to every
-         predecessor's output row; guarded against double insertion.
+         predecessor's output row (c01_retvars.py, below).
 """
 
 from __future__ import annotations
@@ -210,12 +210,8 @@ def run(ctx: Ctx) -> None:
               "a block outputs its variables in another order than its successor expects them")
 
     # ------------------------------------------------------------ R-C01.4 return variables
-    irv = idx.find_func("insert_return_vars", "guppylang_internals.compiler.cfg_compiler")
-    sigs = [c for c in calls_in(irv.node) if call_name(c) == "Signature"]
-    ok = len(sigs) == 2 and all("*return_vars" in ast.unparse(c) for c in sigs) \
-        and any(isinstance(n, ast.For) and "exit_bb.predecessors" in ast.unparse(n.iter) for n in walk_no_nested(irv.node))
-    ctx.check(ok, "R-C01.4", f"{irv.qualname}#exit-and-predecessors-agree", irv.where, {"signatures_patched": len(sigs)},
-              "the exit block expects return values that its predecessors do not output (or in another position)")
+    from . import c01_retvars
+    c01_retvars.run(ctx)
 
     # ------------------------------------------------------------ R-C01.5 struct/tuple places
     from . import c01_places
